@@ -216,6 +216,7 @@ package generator
 //@   ensures [C04,C09,C01] raw-ready: raw_ready(emitted(out))
 //@   ensures [C04,C09,C17] order: frags_ordered(emitted(out))
 //@   ensures [C19,C01] shadow: shadow_ok(emitted(out), declType.Name)
+//@   ensures [C01] packages-of-the-additional-properties-block: (uses_pkg(emitted(out), "reflect") <==> struct_has_field(declType.Type, "AdditionalProperties")) && (uses_pkg(emitted(out), "strings") <==> struct_has_field(declType.Type, "AdditionalProperties")) && (uses_pkg(emitted(out), "mapstructure") <==> struct_has_field(declType.Type, "AdditionalProperties"))
 
 //@ func (*yamlFormatter).generate
 //@   props C19 C04 C09 C01 C17
@@ -231,6 +232,7 @@ package generator
 //@   ensures [C04,C09,C01] raw-ready: raw_ready(emitted(out))
 //@   ensures [C04,C09,C17] order: frags_ordered(emitted(out))
 //@   ensures [C19,C01] shadow: shadow_ok(emitted(out), declType.Name)
+//@   ensures [C01] packages-of-the-additional-properties-block: (uses_pkg(emitted(out), "reflect") <==> struct_has_field(declType.Type, "AdditionalProperties")) && (uses_pkg(emitted(out), "strings") <==> struct_has_field(declType.Type, "AdditionalProperties")) && (uses_pkg(emitted(out), "mapstructure") <==> struct_has_field(declType.Type, "AdditionalProperties"))
 
 // ---- attaching validators to a field (structFieldValidators) -----------------
 // Scenario: an empty validator list, a field whose schema node S = f.SchemaType
@@ -499,9 +501,11 @@ package generator
 //@   props C16 C01 C17
 //@   option inline (*jsonFormatter).generate (*yamlFormatter).generate
 //@   shape g = sgen()
-//@   shape decl = decl(T,none)
+//@   shape decl = decl(T,none) | decl(T,addl) | decl(T,addl2)
 //@   shape validators = absvals(0) | absvals(1) | absvals(2)
 //@   assigns *g.output.file
+//@   ensures [C01] additional-properties-block-has-its-imports: !g.config.OnlyModels && struct_has_field(decl.Type, "AdditionalProperties") ==> has_import(g, "reflect") && has_import(g, "strings") && has_import(g, "github.com/go-viper/mapstructure/v2")
+//@   ensures [C01,C16] no-unused-additional-properties-import: !struct_has_field(decl.Type, "AdditionalProperties") ==> !has_import(g, "reflect") && !has_import(g, "strings") && !has_import(g, "github.com/go-viper/mapstructure/v2")
 //@   ensures [C16] only-models-adds-nothing: g.config.OnlyModels ==> len(g.output.file.Package.Decls) == 0 && len(g.output.file.Package.Imports) == 0
 //@   ensures [C16,C17] one-method-per-formatter: !g.config.OnlyModels ==> len(g.output.file.Package.Decls) == 2 && has_import(g, "encoding/json") && has_import(g, "gopkg.in/yaml.v3")
 //@   ensures [C01] fmt-iff-some-fragment-returns-errors: !g.config.OnlyModels ==> (has_import(g, "fmt") <==> (len(validators) >= 1 && abs_has_error(0)) || (len(validators) >= 2 && abs_has_error(1)))
